@@ -110,6 +110,11 @@ def ob_lifecycle(w, P):
         cl.append(('C18,C13', "a pickle round trip changes no shard's settings: the copy, the original and a newly opened handle all report the per-shard limits the cache was created with",
                    AndL(And(EqR(zv(a.size_limit), zv(p)), EqR(zv(a.cull_limit), zv(cull))) for h in (f2, fc, L.fanout.FanoutCache(w.dir, shards=2)) for a, p in zip(h._shards, per_shard))))
         cl.append(('C18,C13', 'and the stored settings are unchanged', AndL(EqR(zv(core.Cache(sh._directory).reset('size_limit')), zv(p)) for sh, p in zip(fc._shards, per_shard))))
+        # reopening WITH an explicit total (any value, the library default 2**30 included) divides that total among the shards again
+        total2 = w.int('size_limit2', 2 ** 30 - 2, 2 ** 30 + 2)
+        f5 = L.fanout.FanoutCache(w.dir, shards=2, size_limit=total2)
+        cl.append(('C13,C18', 'an explicit size limit on reopen is divided among the shards and stored, whatever its value',
+                   AndL(And(EqR(sx.MulR(2, zv(sh.size_limit)), zv(total2)), EqR(sx.MulR(2, zv(core.Cache(sh._directory).size_limit)), zv(total2))) for sh in f5._shards)))
         cl.append(('C18', 'an unpickled FanoutCache has the same directory, shard count, timeout and Disk class',
                    f2.directory == fc.directory and f2._count == 2 and f2.timeout == 3 and f2._disk is fc._disk))
         cl.append(('C18', 'and sees the same items', EqR(zv(f2.get(1)), zv(v))))
